@@ -80,7 +80,7 @@ func main() { vlib.Run("C20", run) }
 func run(c *vlib.Ctx) {
 	c.Rule("one case = one concurrent run of 2-4 workers x 20-80 ops (thorough: up to 200) on 1-2 shared files in /a,/b of one MFS root " +
 		"(config: chunker default|size-16, CIDv0|v1, fixed|variable payload length, yield injection rate in the DAG service); " +
-		"strata: rw (every write truncates first), modeq (3-4 workers on one file, half of the ops File.Mode/ModTime), setattr (rw + File.SetMode/SetModTime), " +
+		"strata: rw (every write truncates first), modeq (3-4 workers on one file: half of the ops poll the read accessors File.Mode/ModTime/Size, Directory.List/ListNames/Mode/ModTime, 12% File.SetMode/SetModTime, the rest the rw mix), setattr (rw + File.SetMode/SetModTime), " +
 		"overwrite (rw with fixed-length in-place overwrites, i.e. DagModifier.modifyDag), faults (rw without Mv/Mkdir, DAGService.Add failing for 1-4 of 64 calls: a failed write may or may not have happened, or have only truncated), " +
 		"dirflush (rw + Directory.Flush/FlushPath(dir): known cache-orphaning defect), dirattr (rw + Directory.SetMode/SetModTime by one worker: known stale-snapshot defect); " +
 		"distinct = FNV of the observed per-key history shape (op kinds with call/return order); " +
@@ -158,11 +158,12 @@ const (
 	opDirFlush
 	opDirSetMode
 	opDirSetMtime
+	opDirList
 )
 
 var kindName = map[opKind]string{opWrite: "W", opRead: "R", opSize: "Size", opSnap: "Snap", opFlushPathFile: "FlushPath", opFileFlush: "FileFlush",
 	opList: "List", opDirStat: "DirStat", opTokMv: "TokMv", opMkdir: "Mkdir", opSetMode: "SetMode", opSetMtime: "SetModTime", opMode: "Mode",
-	opModTime: "ModTime", opDirFlush: "DirFlush", opDirSetMode: "DirSetMode", opDirSetMtime: "DirSetModTime"}
+	opModTime: "ModTime", opDirFlush: "DirFlush", opDirSetMode: "DirSetMode", opDirSetMtime: "DirSetModTime", opDirList: "DirList"}
 
 type op struct {
 	kind    opKind
@@ -505,7 +506,13 @@ func oneRun(k *vlib.Case, stratum string) {
 				case "setattr":
 					o = op{kind: vlib.Pick(rr, []opKind{opSetMode, opSetMtime}), path: p, n: rr.Intn(0o777)}
 				case "modeq":
-					o = op{kind: vlib.Pick(rr, []opKind{opMode, opModTime}), path: p}
+					// every read accessor that takes nodeLock / Directory.lock
+					switch k := vlib.Pick(rr, []opKind{opMode, opModTime, opSize, opSize, opDirList, opList, opDirStat}); k {
+					case opDirList, opList, opDirStat:
+						o = op{kind: k, path: filepath.Dir(p)}
+					default:
+						o = op{kind: k, path: p}
+					}
 				case "dirflush":
 					o = op{kind: opDirFlush, path: vlib.Pick(rr, []string{"/", filepath.Dir(p)})}
 				case "dirattr":
@@ -522,6 +529,9 @@ func oneRun(k *vlib.Case, stratum string) {
 				default:
 					o = op{kind: opRead, path: p}
 				}
+			case stratum == "modeq" && x < special+12:
+				// ... against every writer of nodeLock: setattr here, flushUp below
+				o = op{kind: vlib.Pick(rr, []opKind{opSetMode, opSetMtime}), path: p, n: rr.Intn(0o777)}
 			default:
 				y := rr.Intn(87)
 				switch {
@@ -944,6 +954,39 @@ func (w *world) exec(wi int, o op) {
 		for _, p := range w.files {
 			if filepath.Dir(p) == o.path && seen[filepath.Base(p)] == 0 {
 				w.fail("list-missing", "permanent file is listed", filepath.Base(p), fmt.Sprintf("%v", names))
+			}
+		}
+	case opDirList:
+		// Directory.List = ForEachEntry: under the directory lock it calls
+		// GetNode and Size of every child; the sizes are reads of the registers
+		var ids []int
+		var keys []string
+		for _, p := range w.files {
+			if filepath.Dir(p) == o.path {
+				keys = append(keys, p)
+				ids = append(ids, w.rec.call(in{Key: p, Kind: 's', Client: wi, What: "Directory.List entry size"}))
+			}
+		}
+		d := w.dir(o.path, o)
+		if d == nil {
+			return
+		}
+		ls, err := d.List(ctx)
+		if err != nil {
+			w.opErr("list", o, err)
+			return
+		}
+		t := w.rec.now()
+		for i, p := range keys {
+			n := 0
+			for _, e := range ls {
+				if e.Name == filepath.Base(p) {
+					n++
+					w.rec.retAt(ids[i], t, out{N: e.Size})
+				}
+			}
+			if n != 1 {
+				w.fail("list-missing", "permanent file is listed exactly once", filepath.Base(p), fmt.Sprintf("%d entries of that name in %s", n, o.path))
 			}
 		}
 	case opDirStat:
